@@ -20,12 +20,21 @@ def replay_hermtoep(chk, st, cplx):
     mode = 'complex' if cplx else 'real'
     r, z = st['r'], st['z']
     expx = np.array(M.cq_seq(st['x']), dtype=complex)
-    for ename, fc in (('native', False), ('complex-dtype', True)):
-        if cplx and fc:
+    zreal = all(M.cq_is_real(v) for v in z)
+    paths = [('native', False, None), ('complex-dtype', True, None)]
+    if zreal:
+        # right-hand side given as integers / floats while the matrix may be complex
+        paths += [('rhs-int-list', cplx, 'list'), ('rhs-int64', cplx, 'int64'), ('rhs-float64', cplx, 'float64')]
+    for ename, fc, zkind in paths:
+        if cplx and fc and zkind is None:
             continue
         T0 = float(M.rat(r[0][0]))
         T = _arr(r[1:], cplx, fc)
         Z = _arr(z, cplx, fc)
+        if zkind == 'list':
+            Z = [int(v) for v in M.real_list(z)]
+        elif zkind:
+            Z = np.array(M.real_list(z), dtype=zkind)
         case = {'kernel': 'HERMTOEP', 'T0': T0, 'T': T, 'Z': Z, 'expect_x': expx, 'complex': cplx}
         ok, res = call_guard(HERMTOEP, T0, T, Z)
         chk.evaluations += 1
@@ -67,12 +76,20 @@ def replay_toeplitz(chk, st, cplx):
     admissible = st['status'] == 'ok' and all(_lex_positive(p) for p in st['pivots'])
     clearly_refusable = any(M.cq(p)[0] < 0 for p in st['pivots'])
     t0 = float(M.rat(st['t0'][0]))
-    for ename, fc in (('native', False), ('complex-dtype', True)):
-        if cplx and fc:
+    zreal = all(M.cq_is_real(v) for v in st['z'])
+    paths = [('native', False, None), ('complex-dtype', True, None)]
+    if zreal:
+        paths += [('rhs-int-list', cplx, 'list'), ('rhs-int64', cplx, 'int64')]
+    for ename, fc, zkind in paths:
+        if cplx and fc and zkind is None:
             continue
         TC = _arr(st['tc'], cplx, fc)
         TR = _arr(st['tr'], cplx, fc)
         Z = _arr(st['z'], cplx, fc)
+        if zkind == 'list':
+            Z = [int(v) for v in M.real_list(st['z'])]
+        elif zkind:
+            Z = np.array(M.real_list(st['z']), dtype=zkind)
         T0 = complex(t0) if (cplx or fc) else t0
         case = {'kernel': 'TOEPLITZ', 'T0': t0, 'TC': TC, 'TR': TR, 'Z': Z, 'complex': cplx,
                 'pivots': [M.cq(p) for p in st['pivots']]}
